@@ -199,7 +199,8 @@ def run_five(trace, hz=True, dc=None, ic=None, max_ticks=3000, stop_after_retire
     """Five-stage mode, one tick at a time.  Returns {"ticks": [...], "sim", "exc", "done"};
     one record per tick:
       (tick, retired_addr, cycles, flushes, stalls, out_len, exit_code,
-       dc_acc, dc_hits, ic_acc, ic_hits, stalled_pre, pc_pre, had_instr_pre, if_addr, sig, rdval)"""
+       dc_acc, dc_hits, ic_acc, ic_hits, stalled_pre, pc_pre, had_instr_pre, if_addr, sig, rdval,
+       mem_addr, mem_comparison)   # the instruction in the MEM latch and the pipeline's own branch evaluation"""
     sim = make_sim(trace, "five_stage_pipeline", hz, dc, ic, prog)
     decoy = Decoy(trace, hz, dc, ic, prog)
     st = sim.state
@@ -255,6 +256,7 @@ def run_five(trace, hz=True, dc=None, ic=None, max_ticks=3000, stop_after_retire
         rec = (
             t, raddr, pm.cycles, pm.flushes, pm.stalls, len(st.output), st.exit_code,
             dca, dch, ica, ich, stalled_pre, pc_pre, had, prs[0].address_of_instruction, sig, rdval,
+            prs[3].address_of_instruction, getattr(prs[3], "comparison", None),
         )
         ticks.append(rec)
         if on_tick:
